@@ -242,3 +242,24 @@ MUTATIONS += [
     ("serve-notify-only-after-receive", ["C11", "C14"], P, "        finally:\n            self._recvlock.release()\n            with self._recv_event:\n                self._recv_event.notify_all()\n        try:\n            self._dispatch(data)",
      "        finally:\n            self._recvlock.release()\n        with self._recv_event:\n            self._recv_event.notify_all()\n        try:\n            self._dispatch(data)"),
 ]
+
+ST = "rpyc/core/stream.py"
+MUTATIONS += [
+    # ---- C05: channel / streams
+    ("stream-count-not-decremented-fully", ["C05"], ST, "            data.append(buf)\n            count -= len(buf)\n        return BYTES_LITERAL(\"\").join(data)\n\n    def write(self, data):\n        try:\n            while data:\n                count = self.sock.send",
+     "            data.append(buf)\n            count -= max(len(buf), 2)\n        return BYTES_LITERAL(\"\").join(data)\n\n    def write(self, data):\n        try:\n            while data:\n                count = self.sock.send"),
+    ("stream-timeout-not-retried", ["C05"], ST, "            except socket.timeout:\n                continue", "            except socket.timeout:\n                raise EOFError('timeout')"),
+    ("stream-eof-returns-short", ["C05"], ST, "            if not buf:\n                self.close()\n                raise EOFError(\"connection closed by peer\")\n            data.append(buf)\n            count -= len(buf)\n        return BYTES_LITERAL(\"\").join(data)\n\n    def write(self, data):\n        try:\n            while data:\n                count = self.sock.send",
+     "            if not buf:\n                break\n            data.append(buf)\n            count -= len(buf)\n        return BYTES_LITERAL(\"\").join(data)\n\n    def write(self, data):\n        try:\n            while data:\n                count = self.sock.send"),
+    ("stream-write-wrong-slice", ["C05"], ST, "                count = self.sock.send(data[:self.MAX_IO_CHUNK])\n                data = data[count:]", "                count = self.sock.send(data[:self.MAX_IO_CHUNK])\n                data = data[self.MAX_IO_CHUNK:]"),
+    ("channel-second-part-wrong-start", ["C05", "C19"], CH, "            self.stream.write(data[part1:])", "            self.stream.write(data[self.stream.MAX_IO_CHUNK:])"),
+    ("channel-flusher-not-stripped", ["C05"], CH, "        data = self.stream.read(length + len(self.FLUSHER))[:-len(self.FLUSHER)]", "        data = self.stream.read(length + len(self.FLUSHER))"),
+    ("channel-flusher-not-read", ["C05"], CH, "        data = self.stream.read(length + len(self.FLUSHER))[:-len(self.FLUSHER)]", "        data = self.stream.read(length)"),
+    ("stream-no-close-before-raise", ["C05"], ST, "                self.close()\n                raise EOFError(ex)\n            if not buf:", "                raise EOFError(ex)\n            if not buf:"),
+    ("pipe-write-error-not-closing", ["C05"], ST, "                written = os.write(self.outgoing.fileno(), chunk)\n                data = data[written:]\n        except EnvironmentError:\n            ex = sys.exc_info()[1]\n            self.close()",
+     "                written = os.write(self.outgoing.fileno(), chunk)\n                data = data[written:]\n        except EnvironmentError:\n            ex = sys.exc_info()[1]"),
+    ("pipe-read-assumes-full", ["C05"], ST, "                buf = os.read(self.incoming.fileno(), min(self.MAX_IO_CHUNK, count))\n                if not buf:\n                    raise EOFError(\"connection closed by peer\")\n                data.append(buf)\n                count -= len(buf)",
+     "                buf = os.read(self.incoming.fileno(), min(self.MAX_IO_CHUNK, count))\n                if not buf:\n                    raise EOFError(\"connection closed by peer\")\n                data.append(buf)\n                count -= min(self.MAX_IO_CHUNK, count)"),
+    ("channel-compress-flag-without-compression", ["C05", "C19"], CH, "            data = zlib.compress(data, self.COMPRESSION_LEVEL)", "            _z = zlib.compress(data, self.COMPRESSION_LEVEL)\n            data = _z if len(_z) < len(data) else data"),
+    ("stream-eagain-not-retried", ["C05"], ST, "                if get_exc_errno(ex) in retry_errnos:\n                    # windows just has to be a bitch\n                    continue", "                if get_exc_errno(ex) == errno.EWOULDBLOCK + 1000:\n                    continue"),
+]
